@@ -183,6 +183,12 @@ func (x *Exec) callCommonVals(st *State, cc *ssa.CallCommon, fnv Val, args []Val
 		}
 		con := x.v.cf.Funcs[name]
 		if con == nil {
+			// a function of the package without a contract (typically a helper that a change has just
+			// introduced): execute its body in place, unless it is (mutually) recursive or the nesting is deep
+			if len(callee.Blocks) > 0 && len(st.frames) < 6 && !x.onStack(st, callee) {
+				x.v.noteInlinedNoContract(x.shortFn(x.fn), name)
+				return x.inline(st, callee, nil, args, site, isDefer)
+			}
 			x.missing(st, "function "+name)
 			return x.symbolic(st, cc.Signature().Results(), "res"), false
 		}
@@ -767,4 +773,13 @@ func (x *Exec) bindCallResult(e *Env) {
 	default:
 		e.vars["callresult"] = r
 	}
+}
+
+func (x *Exec) onStack(st *State, fn *ssa.Function) bool {
+	for _, fr := range st.frames {
+		if fr.fn == fn {
+			return true
+		}
+	}
+	return false
 }
